@@ -1,4 +1,5 @@
 import SudsModel.Lemmas.DepSort
+import SudsModel.Xsd.Qualify
 /-!
 C07 — the dependencies-first ordering underneath `Schema.dereference` (`dependency_sort`), for every
 dependency tree of any size: cycles, self-loops and dangling edges included.
@@ -58,5 +59,42 @@ example : depsort [(3, [1, 2, 9]), (2, [1]), (1, [])] = [1, 2, 3] := by decide
 /-- D14 (known finding): with a cycle on the path the documented contract for *indirect*
 dependencies fails — X(2) depends on W(3) through Y(1), W is in no cycle, yet X precedes W. -/
 theorem cycle_entry_witness : depsort [(1, [2, 3]), (2, [1]), (3, [])] = [2, 3, 1] := by decide
+
+end Suds.Xsd
+
+namespace Suds.Xsd
+open Suds.Xml
+
+/-- **Prefix names do not matter**: two references with the same local part whose prefixes denote
+the same namespace in their respective scopes qualify to the same name — whatever the prefixes are
+called and wherever in the two documents they are declared. -/
+theorem qualify_prefix_names_do_not_matter (ref1 ref2 : String) (ctx1 ctx2 : Ctx) (tns1 tns2 : Option String)
+    (p1 p2 n u : String) (h1 : splitPrefix ref1 = (some p1, n)) (h2 : splitPrefix ref2 = (some p2, n))
+    (r1 : resolvePrefix p1 ctx1 = some u) (r2 : resolvePrefix p2 ctx2 = some u) :
+    qualifyRef ref1 ctx1 tns1 = qualifyRef ref2 ctx2 tns2 := by
+  simp [qualifyRef, h1, h2, r1, r2]
+
+/-- **A default namespace is as good as a prefix**: an unprefixed reference under `xmlns="u"`
+qualifies like the prefixed one whose prefix denotes `u`. -/
+theorem qualify_default_namespace_like_prefix (n ref2 : String) (ctx1 ctx2 : Ctx) (tns1 tns2 : Option String)
+    (p u : String) (h1 : splitPrefix n = (none, n)) (d1 : defaultNs ctx1 = some u)
+    (h2 : splitPrefix ref2 = (some p, n)) (r2 : resolvePrefix p ctx2 = some u) :
+    qualifyRef n ctx1 tns1 = qualifyRef ref2 ctx2 tns2 := by
+  simp [qualifyRef, h1, h2, d1, r2]
+
+/-- Without any default namespace in scope an unprefixed reference means the schema's own target
+namespace (suds' reading of "improperly written" schemas). -/
+theorem qualify_unprefixed_falls_back_to_tns (n : String) (ctx : Ctx) (tns : Option String)
+    (h1 : splitPrefix n = (none, n)) (d : defaultNs ctx = none) : qualifyRef n ctx tns = some (n, tns) := by
+  simp [qualifyRef, h1, d]
+
+/-- An unresolvable prefix is an error, never a guess. -/
+theorem qualify_unknown_prefix (ref : String) (ctx : Ctx) (tns : Option String) (p n : String)
+    (h : splitPrefix ref = (some p, n)) (r : resolvePrefix p ctx = none) : qualifyRef ref ctx tns = none := by
+  simp [qualifyRef, h, r]
+
+/-- the premises are satisfiable: a prefix declared two levels up, and a default namespace -/
+example : resolvePrefix "zz" [([], none), ([("zz", "urn:x")], some "urn:d")] = some "urn:x" ∧
+    defaultNs [([], none), ([("zz", "urn:x")], some "urn:d")] = some "urn:d" := by decide
 
 end Suds.Xsd
